@@ -42,6 +42,10 @@ def scenarios(tier):
         out.append({'name': f'two coordinates on distinct dimensions,positive_down={p},deep_to_shallow={o}',
                     'fn': 'scn_two_distinct', 'kwargs': {'p': p, 'o': o}})
     out.append({'name': 'multidimensional depth variable is refused', 'fn': 'scn_multidim', 'kwargs': {}})
+    for conv_name in ('CFGrid1D', 'ShocStandard', 'UGrid'):
+        for p, o in ((True, None), (False, True), (None, False)):
+            out.append({'name': f'dataset.ems.normalize_depth_variables hands every depth coordinate and both options to the operation[{conv_name}, positive_down={p}, deep_to_shallow={o}]',
+                        'fn': 'scn_entry', 'kwargs': {'conv_name': conv_name, 'p': p, 'o': o}})
     return out
 
 
@@ -330,3 +334,47 @@ def scn_multidim(c):
 
 
 NATIVE = {'': 'normalize'}
+
+
+def scn_entry(c, conv_name, p, o):
+    """Convention.normalize_depth_variables (the accessor alias): the operation (contract: the scenarios above) is applied to the dataset
+    itself with EVERY depth coordinate of the dataset - two of them share one dimension here, the sign convention is a matter of each
+    coordinate variable - and with the two options as given."""
+    from contracts import inputs
+    from pyvc.api import attr, method, new_interp
+    from pyvc.contract import Contract
+    from pyvc.lib.stdlib import OpaqueValue
+    MOD = 'emsarray.operations.depth'
+    it = new_interp()
+    ds, conv = inputs.make_convention(it, c, conv_name)
+    face = ds.info['dims']['face']
+    names = {'CFGrid1D': [('depth', 'depth', 'down'), ('z', 'depth', 'up'), ('sed', 'ksed', 'down')],
+             'UGrid': [('layer', 'nlayer', 'up'), ('layer_alt', 'nlayer', 'down')],
+             'ShocStandard': [('z_centre', 'k_centre', 'up'), ('z_grid', 'k_grid', 'up')]}[conv_name]
+    sizes = {}
+    for name, dim, positive in names:
+        n = sizes.setdefault(dim, sym_size(c, 'n_' + dim, 2))
+        add_var(ds, name, (dim,), sym_array(c, name, (n,), 'real'), {'positive': positive, 'axis': 'Z'}, coord=True)
+    for dim, n in sizes.items():
+        add_var(ds, 'data_' + dim, (dim,) + tuple(face), sym_array(c, 'data_' + dim, (n,) + tuple(ds._sizes()[d] for d in face), 'floatnan'))
+    calls = []
+
+    def post(it_, a):
+        calls.append(a)
+        return OpaqueValue('normalised')
+    it.contracts[(MOD, 'normalize_depth_variables')] = Contract(MOD, 'normalize_depth_variables', post=post, verified_by='C13 normalize scenarios')
+    want = sorted(n for n, _, _ in names)
+    kw = {}
+    if p is not None:
+        kw['positive_down'] = p
+    if o is not None:
+        kw['deep_to_shallow'] = o
+    r = expect_ok(c, 'dataset.ems.normalize_depth_variables returns', lambda: method(it, conv, 'normalize_depth_variables', **kw))
+    c.check('the operation is called exactly once, on the dataset itself', len(calls) == 1 and calls[0].get('dataset') is ds)
+    if len(calls) != 1:
+        raise PathEnd()
+    given = list(it.iterate(calls[0].get('depth_coordinates')))
+    c.check(f'every depth coordinate of the dataset is handed over, each once (also those that share a dimension): {want}',
+            sorted(str(getattr(g, 'name', g)) for g in given) == want, note=repr([getattr(g, 'name', g) for g in given]))
+    c.check('positive_down and deep_to_shallow are handed over as given', calls[0].get('positive_down') is p and calls[0].get('deep_to_shallow') is o)
+    c.check('the result of the operation is returned as it is', isinstance(r, OpaqueValue))
